@@ -169,10 +169,10 @@ def pick_text(rng, bg, thr, band):
 ALL_FEATURES = (
     "vars", "var-fallback", "var-undefined", "var-chain", "var-shared", "root-direct-color", "root-and-html",
     "important", "repeat-decl", "prop-case", "nesting", "bg-var", "keywords", "opaque-atrules", "vendor-hacks",
-    "star-hack", "non-ascii", "crlf", "bom", "cdo-cdc", "alpha-text", "comments", "no-color-rules", "odd-strings",
+    "star-hack", "non-ascii", "crlf", "bom", "cdo-cdc", "alpha-text", "comments", "no-color-rules", "odd-strings", "dup-root",
 )
 # features outside what the reference cascade of C08 models or what C08's statement quantifies over
-C09_ONLY = ("opaque-atrules", "vendor-hacks", "star-hack", "crlf", "bom", "cdo-cdc", "odd-strings")
+C09_ONLY = ("opaque-atrules", "vendor-hacks", "star-hack", "crlf", "bom", "cdo-cdc", "odd-strings", "dup-root")
 
 _SEL_FORMS = (".r%d", "#id%d", "a.x%d:hover", "div > p.k%d", "[data-x=\"%d\"]", "ul li.i%d", "h%d")
 _SEL_FORMS_NONASCII = (".r\u00e9%d", ".\u4e2d%d", "#\u00fc%d")
@@ -385,7 +385,7 @@ class SheetGen:
         if self.vars or "root-direct-color" in f:
             names = [":root"]
             if "root-and-html" in f:
-                names = r.choice(([":root", "html"], ["html", ":root"], ["html"], [":root", ":root"]))
+                names = r.choice(([":root", "html"], ["html", ":root"], ["html"]) + (([":root", ":root"],) if "dup-root" in f else ()))
             blocks = [{"t": "rule", "sel": s, "decls": []} for s in names]
             if "root-direct-color" in f:
                 for b in blocks:
